@@ -6,7 +6,7 @@ prop=$1; out=$2; k=$3; bin=${4:-/verif/bin/hpfscheck}
 export GOFLAGS=-mod=mod GOPROXY=off GOSUMDB=off GOTOOLCHAIN=local; unset GOWORK
 W=$(mktemp -d /tmp/sqXXXX); rmdir $W
 git -C /repo worktree add -q --detach $W HEAD || exit 2
-V=$(mktemp -d /tmp/sqvXXXX); cp /verif/known_findings.json $V/; mkdir -p $V/checker; ln -s /verif/checker/fixtures $V/checker/fixtures
+V=$(mktemp -d /tmp/sqvXXXX); cp /verif/known_findings.json /verif/reference_funcs.json $V/ 2>/dev/null; mkdir -p $V/checker; ln -s /verif/checker/fixtures $V/checker/fixtures
 if ! git -C $W apply $out/change$k.diff 2> $V/apply.log; then echo "$prop-$k APPLY-FAILED $(head -2 $V/apply.log)"; else
 (cd $W && go build ./... 2>&1 | head -3)
 $bin -repo $W -verif $V -property $prop 2>&1 | grep -E '^  rule|quick:|checker failure' | cut -c1-${SQ_COLS:-300} | head -${SQ_LINES:-4} | sed "s/^/$prop-$k: /"
